@@ -33,9 +33,9 @@ def cases(tier, seed):
     ciphers = list(encwork.CIPHERS)
     i = 0
     for prod, rc in BASES:
-        ncipher = 2 if tier == 'quick' else 5
+        ncipher = 2 if tier == 'quick' else 9
         if prod == 'pgpy' and rc == 'pass':
-            ncipher = 1   # 0.13 s per attempt (S2K count 255): a measured sample only
+            ncipher = 1 if tier == 'quick' else 3   # 0.13 s per attempt (S2K count 255): a measured sample only
         for j in range(ncipher):
             base = {'prod': prod, 'rc': rc, 'cipher': ciphers[(i + j * 4) % len(ciphers)], 'body': ['one', 'ascii', 'binary'][(i + j) % 3], 'comp': [0, 1, 2][(i + j) % 3]}
             for cl in CLASSES:
